@@ -678,7 +678,7 @@ pub fn cont_case_strategy() -> BoxedStrategy<ContCase> {
     // (4) byte containers among themselves
     let bytes = (prop::sample::select(vec![Cont::Vec, Cont::Slice, Cont::Array, Cont::Bytes, Cont::RcSlice]), prop::sample::select(vec![Cont::Vec, Cont::Array, Cont::Bytes]), prop::sample::select(vmodel::gen::BYTE_ARRAY_LENS.to_vec()), any::<bool>())
         .prop_flat_map(|(s, d, n, fixed)| {
-            let len = if fixed || s == Cont::Array || d == Cont::Array { (n..=n).boxed() } else { prop_oneof![4 => 0usize..70, 1 => 120usize..300].boxed() };
+            let len = if fixed || s == Cont::Array || d == Cont::Array { (n..=n).boxed() } else { prop_oneof![8 => 0usize..70, 2 => 120usize..300, 1 => prop::sample::select(vec![4095usize, 4096, 4097, 8192, 70_000])].boxed() };
             (Just(s), Just(d), len.prop_flat_map(|l| proptest::collection::vec(any::<u8>(), l..=l)))
         })
         .prop_map(|(src, dst, b)| ContCase { elem: Ty::U8, elem2: None, xs: Val::Bytes(b), src, dst, form: Form::Known, holder: 0 });
